@@ -76,6 +76,8 @@ pub fn predict_and_check<'p>(
     let warm_fill = rng.chance(1, 2);
     let repredict = rng.chance(1, 5);
     ctx.flag("sentences_predicted_twice_in_a_row", repredict);
+    let relabel = repredict && rng.chance(1, 2);
+    ctx.flag("sentences_relabelled_between_two_predictions", relabel);
     let built = guard(|| {
         let mut s = build_sentence(&rs);
         if let Some(w) = warm {
@@ -87,7 +89,13 @@ pub fn predict_and_check<'p>(
         }
         pred.predict(&mut s);
         if repredict {
-            // predicting the same sentence again must give the same scores (nothing accumulates)
+            // predicting the same sentence again must give the same scores (nothing accumulates) and
+            // decide every boundary again, whatever a caller wrote into the labels in between
+            if relabel {
+                for (i, b) in s.boundaries_mut().iter_mut().enumerate() {
+                    *b = boundary_of(((i + n) % 3) as u8);
+                }
+            }
             pred.predict(&mut s);
         }
         s
@@ -152,6 +160,7 @@ fn count_model_facts(ctx: &mut Ctx, m: &ModelData) {
     let f = model_facts(m);
     ctx.flag("cases_with_suffix_related_patterns", f.suffix_related);
     ctx.flag("cases_with_equal_ngram_and_word", f.equal_entries);
+    ctx.flag("cases_with_value_equal_weight_vectors_at_different_lengths", f.value_equal_weights);
     ctx.flag("cases_with_weight_vectors_longer_than_8", f.long_weights);
     ctx.flag("cases_with_weight_vectors_up_to_8", f.short_weights);
     let wt = m.type_window_size;
@@ -403,9 +412,76 @@ pub fn check_tags(
     true
 }
 
+/// tag prediction requested, no tag model; type window <= 3 (cached type scorer), plus a character n-gram
+fn tagless_tag_predictor() -> Predictor {
+    let m = ModelData {
+        char_ngram_model: vec![vgen::mirror::NgramData { ngram: "a".into(), weights: vec![2, -3] }],
+        type_ngram_model: vec![vgen::mirror::NgramData { ngram: vec![5], weights: vec![1, -1] }, vgen::mirror::NgramData { ngram: vec![3, 3], weights: vec![4] }],
+        bias: 0,
+        char_window_size: 1,
+        type_window_size: 1,
+        ..ModelData::default()
+    };
+    new_predictor(&m, true).expect("tag-less tag predictor")
+}
+
+/// Set by the C06 workload itself (the composite C18u workload skips the large tag set).
+pub static ALLOW_BIG_TAGSET: std::sync::atomic::AtomicBool = std::sync::atomic::AtomicBool::new(false);
+
+/// A model with more than 65 536 tag models; tag n-grams on tokens with small and large ids.
+fn big_tagset(ctx: &mut Ctx) {
+    use vgen::mirror::{NgramData, TagModel, TagNgramData, TagWeight};
+    let cjk = |i: usize| char::from_u32(0x4E00 + (i % 20000) as u32).unwrap();
+    let n = 65_540usize;
+    let tok = |i: usize| -> String { [cjk(i / 300), cjk(3000 + i % 300)].iter().collect() };
+    let mut m = ModelData { bias: -1, char_window_size: 1, type_window_size: 1, ..ModelData::default() };
+    m.char_ngram_model.push(NgramData { ngram: "x".into(), weights: vec![5, 5] });
+    let special = [0usize, 3, 4, 65_535, 65_536, 65_539];
+    for i in 0..n {
+        let mut tm = TagModel { token: tok(i), tags: vec![vec!["P".into(), "Q".into()]], char_ngram_model: vec![], type_ngram_model: vec![], bias: vec![0, 5] };
+        if special.contains(&i) {
+            tm.char_ngram_model.push(TagNgramData { ngram: tok(i), weights: vec![TagWeight { rel_position: 0, weights: vec![100 + i as i32 % 7, 0] }] });
+        }
+        m.tag_models.push(tm);
+    }
+    let case = Case { model: m, texts: special.iter().chain([7usize, 65_537].iter()).map(|&i| format!("x{}x{}x", tok(i), tok(i)).chars().collect()).collect(), weight_class: "big-tagset" };
+    let r = guard(|| -> Result<Vec<(Vec<char>, Obs)>, String> {
+        let mut p = new_predictor(&case.model, true)?;
+        p.store_tag_scores(true);
+        let mut out = vec![];
+        for t in &case.texts {
+            let mut s = Sentence::from_raw(to_string(t)).map_err(|e| e.to_string())?;
+            p.predict(&mut s);
+            // x | tok | x | tok | x
+            for (i, b) in s.boundaries_mut().iter_mut().enumerate() {
+                *b = boundary_of(u8::from(i != 1 && i != 4));
+            }
+            s.fill_tags();
+            out.push((t.clone(), observe(&s, true)));
+        }
+        Ok(out)
+    });
+    ctx.eval(1);
+    match r {
+        Ok(Ok(v)) => {
+            for (t, obs) in v {
+                check_tags(ctx, "C06", &case, &t, &obs, true, "model with more than 65536 tag models");
+            }
+            ctx.count("models_with_more_than_65536_tag_models", 1);
+            ctx.nontrivial(65_540);
+        }
+        Ok(Err(e)) => ctx.violation("C06:large_tag_set_rejected", J::s(&e)),
+        Err(p) => ctx.violation(&format!("C06:large_tag_set_panicked:{}", panic_site(&p)), J::s(&p)),
+    }
+}
+
 pub fn run_c06(ctx: &mut Ctx, from: u64, to: u64, tiny: bool) {
     for k in from..to {
         ctx.begin_case(k);
+        if k == 5 && !tiny && ALLOW_BIG_TAGSET.load(std::sync::atomic::Ordering::Relaxed) {
+            big_tagset(ctx);
+            continue;
+        }
         let mut rng = Rng::new(case_seed(ctx.seed, "C06", k));
         let mut o = opts_for(ctx, k, TagMode::Always, tiny);
         o.max_text_len = o.max_text_len.min(80);
@@ -416,6 +492,7 @@ pub fn run_c06(ctx: &mut Ctx, from: u64, to: u64, tiny: bool) {
         ctx.flag("models_with_empty_char_boundary_model", m.char_ngram_model.is_empty() && m.dict_model.is_empty());
         ctx.flag("models_with_empty_type_boundary_model", m.type_ngram_model.is_empty());
         ctx.flag("models_whose_tag_models_have_no_category", m.n_tags() == 0);
+        let tagless = tagless_tag_predictor();
         let Some(mut pred) = make_predictor(ctx, "C06", &case, true) else { continue };
         let stored = rng.chance(2, 3);
         pred.store_tag_scores(stored);
@@ -461,6 +538,28 @@ pub fn run_c06(ctx: &mut Ctx, from: u64, to: u64, tiny: bool) {
                     let before_tok = ctx_counter(ctx, "tokens_with_tag_model");
                     check_tags(ctx, "C06", &case, text, &obs, with_cands, if forced { "forced boundaries" } else { "predicted boundaries" });
                     modelled += ctx_counter(ctx, "tokens_with_tag_model") - before_tok;
+                    if rng.chance(1, 4) {
+                        // the same object is then analysed by a tag-predicting predictor whose model has no tag
+                        // model at all: the tags of that analysis are "none", whatever ran before
+                        let r2 = guard(|| {
+                            tagless.predict(&mut s);
+                            s.fill_tags();
+                            observe(&s, false)
+                        });
+                        ctx.eval(1);
+                        ctx.count("sentences_reanalysed_by_tagless_tag_predictor", 1);
+                        match r2 {
+                            Ok(o2) => {
+                                if o2.n_tags != 0 || !o2.tags.is_empty() {
+                                    ctx.violation("C06:tags_reported_by_predictor_without_tag_models", J::obj(vec![("observed", o2.to_json()), ("case", case_json(&case, Some(text)))]));
+                                }
+                            }
+                            Err(p) => ctx.violation(
+                                &format!("C06:fill_tags_after_second_predictor_panicked:{}", panic_site(&p)),
+                                J::obj(vec![("panic", J::s(&p)), ("case", case_json(&case, Some(text)))]),
+                            ),
+                        }
+                    }
                 }
                 Err(p) => ctx.violation(
                     &format!("C06:fill_tags_panicked:{}", panic_site(&p)),
